@@ -9,6 +9,15 @@ TB = ("trusted base: rustc's MIR construction and Instance resolution for the re
       "mir-opt-level 0, overflow checks on), the fact extractor /verif/driver, std/rpds/arcstr behaving as documented")
 
 CLAIMS = {
+ 'C11': dict(
+   technique="MIR who-may-access analysis of data_stack/heap over the word registry with slice-bound provenance, control-dependence sets of the purge statements, who-may-call for run()",
+   text=("Static, sealing gates only; equivalence of a meta block with its inlined value is translation validation and NOT decided (nested "
+         "blocks inside builders/definitions deviate on the pinned tree - noted in DESIGN, outside the claimed clauses). Decided: every data "
+         "stack access in any word is a length read, a floor-guarded primitive, or a slice that starts at a mark made inside the current "
+         "context; every heap access in any word is behind `mode != MetaEval`; context_close purges code, debug map and non-constant "
+         "dictionary entries under the MetaEval test and nothing else; run() is called only by the drive functions and, in the builder, only "
+         "under a mode test (compile executes nothing)."),
+   ref='§3 C11'),
  'C01': dict(
    technique="MIR provenance of jump encodings and placeholder origins, flow-variant producer/consumer matching, arm-wise path analysis of the VM (custom extractor, Python rules)",
    text=("Static, structural necessary conditions; equivalence of compiled code with a reference semantics for all nestings is translation "
